@@ -263,6 +263,9 @@ func edgeRecord(o *Out, gb *seqio.GenBank, i int) string {
 		return "definition-period"
 	case 8:
 		f.Date.Year = 10000 + r.Intn(90000)
+		if f.Date.Day > 28 {
+			f.Date.Day = 28 // keep the date a valid calendar date whatever the new year
+		}
 		return "year-5-digits"
 	case 9:
 		f.LocusName = rstr(r, alWord, 17, 28)
@@ -425,6 +428,41 @@ func c01Known(o *Out, kind string, gb seqio.GenBank, field string) bool {
 			return false
 		}
 	}
+	// K4 (C06): Join is not idempotent, so a join left by an edit operation can
+	// print to a text whose parse reduces once more.  Attributed only when the
+	// record passes with every location passed through the constructors again.
+	if kind == "fixed-point" || (kind == "fidelity" && field == "features") {
+		cp := gb
+		cp.Table = nil
+		changed := false
+		for _, f := range gb.Table {
+			g := f
+			g.Loc = renormLoc(f.Loc)
+			if locSx(g.Loc) != locSx(f.Loc) {
+				changed = true
+			}
+			cp.Table = append(cp.Table, g)
+		}
+		if changed && roundTripOK(cp) {
+			o.KnownFinding("K4")
+			return true
+		}
+	}
+	for _, e := range gb.Fields.Extra {
+		if len(e.Name) >= 12 && (kind == "closure" || kind == "fixed-point" || (kind == "fidelity" && field == "extra")) {
+			cp := gb
+			cp.Fields.Extra = nil
+			for _, x := range gb.Fields.Extra {
+				if len(x.Name) < 12 {
+					cp.Fields.Extra = append(cp.Fields.Extra, x)
+				}
+			}
+			if roundTripOK(cp) {
+				o.KnownFinding("K12")
+				return true
+			}
+		}
+	}
 	switch {
 	case nameWraps && (kind == "fixed-point" || (kind == "fidelity" && (field == "organism" || field == "taxon"))):
 		o.KnownFinding("K8")
@@ -437,6 +475,27 @@ func c01Known(o *Out, kind string, gb seqio.GenBank, field string) bool {
 		return true
 	}
 	return false
+}
+
+// renormLoc rebuilds a location through Join/Order/Complement, as the parser does.
+func renormLoc(l gts.Location) gts.Location {
+	switch v := l.(type) {
+	case gts.Joined:
+		parts := make([]gts.Location, len(v))
+		for i := range v {
+			parts[i] = renormLoc(v[i])
+		}
+		return gts.Join(parts...)
+	case gts.Ordered:
+		parts := make([]gts.Location, len(v))
+		for i := range v {
+			parts[i] = renormLoc(v[i])
+		}
+		return gts.Order(parts...)
+	case gts.Complemented:
+		return renormLoc(v.Location).Complement()
+	}
+	return l
 }
 
 // roundTripOK evaluates the property's predicate without recording anything.
@@ -458,6 +517,8 @@ func roundTripOK(gb seqio.GenBank) bool {
 	text2, ok := writeGB(recs[0])
 	return ok && text2 == text1
 }
+
+var pipelineTrace string
 
 // checkRoundTrip is the property's predicate for one record.
 func checkRoundTrip(o *Out, class string, gb seqio.GenBank) {
@@ -489,7 +550,7 @@ func checkRoundTrip(o *Out, class string, gb seqio.GenBank) {
 			if c01Known(o, "fidelity", gb, k) {
 				continue
 			}
-			o.Violate("fidelity:"+k, caseLine, class+": "+fmt.Sprintf("wrote %.120q read %.120q", want.fields[k], got.fields[k]))
+			o.Violate("fidelity:"+k, caseLine, class+pipelineTrace+": "+fmt.Sprintf("wrote %.700q read %.700q", want.fields[k], got.fields[k]))
 		}
 	}
 	text2, ok := writeGB(recs[0])
@@ -537,7 +598,35 @@ func pipeline(o *Out, seq gts.Sequence, pool []gts.Sequence, k int) (gts.Sequenc
 		if gts.Len(guest) > 300 {
 			guest = gts.Slice(guest, 0, 40+r.Intn(100))
 		}
-		switch op := r.Intn(9); op {
+		prev := seq
+		op := r.Intn(9)
+		panicked := false
+		func() {
+			defer func() {
+				if rec := recover(); rec != nil {
+					panicked = true
+					trace = append(trace, fmt.Sprintf("PANIC(%v)", rec))
+				}
+			}()
+			seq = pipelineStep(r, op, seq, guest, n, &trace)
+		}()
+		if panicked {
+			var b bytes.Buffer
+			for _, f := range prev.Features() {
+				fmt.Fprintf(&b, "%s %s; ", f.Key, f.Loc)
+			}
+			o.Violate("pipeline-op-panics", strings.Join(trace, ","), fmt.Sprintf("len=%d features: %.300s", n, b.String()))
+			return prev, strings.Join(trace, ",")
+		}
+	}
+	return seq, strings.Join(trace, ",")
+}
+
+func pipelineStep(r *rand.Rand, op int, seq, guest gts.Sequence, n int, tr *[]string) gts.Sequence {
+	trace := *tr
+	defer func() { *tr = trace }()
+	{
+		switch op {
 		case 0:
 			p := r.Intn(n + 1)
 			seq = gts.Insert(seq, p, guest)
@@ -576,7 +665,7 @@ func pipeline(o *Out, seq gts.Sequence, pool []gts.Sequence, k int) (gts.Sequenc
 			trace = append(trace, "concat")
 		}
 	}
-	return seq, strings.Join(trace, ",")
+	return seq
 }
 
 func runC01(o *Out) {
@@ -639,7 +728,17 @@ func runC01(o *Out) {
 	var pool []gts.Sequence
 	for _, gb := range corpus {
 		checkRoundTrip(o, "corpus", gb)
-		pool = append(pool, gb)
+		// edit pipelines start from records whose features lie inside the sequence
+		// (NC_000913.3.min.gb is a cut-down record whose features refer to the full genome)
+		inside := true
+		for _, f := range gb.Table {
+			if !coordsIn(f.Loc, 0, gb.Len()) {
+				inside = false
+			}
+		}
+		if inside {
+			pool = append(pool, gb)
+		}
 	}
 	pool = append(pool, gens[:minInt(len(gens), 40)]...)
 	// 4. multi-record streams are framed independently
@@ -680,6 +779,8 @@ func runC01(o *Out) {
 			continue
 		}
 		o.Dist["pipeline-ops:"+itoa(strings.Count(trace, ",")+1)]++
+		pipelineTrace = trace
 		checkRoundTrip(o, "pipeline", gb)
+		pipelineTrace = ""
 	}
 }
